@@ -601,8 +601,9 @@ func (t *streamableHTTPClientTransport) sendResponse(ctx context.Context, resp *
 func (t *streamableHTTPClientTransport) close() error {
 	// close GET SSE connection
 	t.getSSEConn.mutex.Lock()
-	if t.getSSEConn.active && t.getSSEConn.cancel != nil {
+	if t.getSSEConn.cancel != nil {
 		t.getSSEConn.cancel()
+		t.getSSEConn.cancel = nil
 		t.getSSEConn.active = false
 	}
 	t.getSSEConn.mutex.Unlock()
@@ -690,8 +691,12 @@ func (t *streamableHTTPClientTransport) establishGetSSE(parentCtx context.Contex
 	go func() {
 		// Reset connection state when function exits
 		defer func() {
+			cancel()
 			t.getSSEConn.mutex.Lock()
-			t.getSSEConn.active = false
+			// A connection that was replaced must not clear the flag of its successor.
+			if t.getSSEConn.ctx == ctx {
+				t.getSSEConn.active = false
+			}
 			t.getSSEConn.mutex.Unlock()
 		}()
 
